@@ -181,7 +181,7 @@ def F(t, *names):
     return t
 
 
-EOC = ('case', ('last', P(2)), 'Some', 0)
+EOC = ('idx', P(2), T.sub(T.root(('len', P(2))), T.const(1)))      # subchain.last().expect(..) == subchain[len - 1]
 WL = P(1)
 SUB = P(2)
 TIMER_ES = 'ros2::rr::CallbackType::EventSource|ros2::rr::CallbackType::Timer'
